@@ -115,6 +115,50 @@ def _(c):
     c.ensures("idempotent", "implies(old(self._reader) is None, self._requests == old(self._requests) and same_heap('Future'))")
     c.ensures("returns-closed-future", "result == self._closed_fut")
 
+    @c.replay
+    def replay(model, ob=None):
+        return {"script": _CLOSE_SCRIPT}
+
+
+# close() on a queue whose waiters are in every state a waiter can be in (pending, cancelled by a timeout, already failed by
+# the mismatch path of _handle_frame, already answered): it must not raise and must leave no waiter pending
+_CLOSE_SCRIPT = '''
+import asyncio, itertools
+from aiokafka.conn import AIOKafkaConnection
+from aiokafka.protocol.metadata import MetadataRequest_v0
+from aiokafka import errors as E
+class W:
+    def close(self): pass
+async def main():
+    problems = []
+    for states in itertools.product(("pending", "cancelled", "failed", "answered"), repeat=3):
+        loop = asyncio.get_running_loop()
+        closed = []
+        conn = AIOKafkaConnection("h", 1, on_close=lambda c, r: closed.append(r))
+        conn._reader = object(); conn._writer = W()
+        conn._read_task = loop.create_future()
+        futs = []
+        for i, s in enumerate(states):
+            f = loop.create_future()
+            if s == "cancelled": f.cancel()
+            elif s == "failed": f.set_exception(E.CorrelationIdError("x"))
+            elif s == "answered": f.set_result(None)
+            conn._requests.append((i, MetadataRequest_v0([]), f)); futs.append(f)
+        try:
+            conn.close()
+        except BaseException as e:
+            problems.append("queue %r: close() raised %s" % (states, type(e).__name__))
+        left = [s for s, f in zip(states, futs) if not f.done()]
+        if left:
+            problems.append("queue %r: %d waiter(s) still pending after close()" % (states, len(left)))
+        for f in futs:
+            if f.done() and not f.cancelled():
+                f.exception()
+    return problems
+bad = asyncio.run(main())
+VIOLATED = bool(bad); DETAIL = "%d problem(s); first: %r" % (len(bad), bad[:2])
+'''
+
 
 @contract(MOD + ":AIOKafkaConnection._handle_frame", "C12")
 def _(c):
